@@ -32,6 +32,7 @@ func TestCheck(t *testing.T) {
 		seed := uint64(r.Seed)
 		sequentialHistories(r)
 		nearCollisionIsolation(r)
+		defaultNameIsolation(r)
 
 		vkit.Sched.Enable(seed, 0.04, 0.02, 0.002)
 		concurrentRuns(r)
@@ -50,6 +51,7 @@ func TestCheck(t *testing.T) {
 		r.Require(r.Counter("conc_attempts_at_limit_after_resize_down_returned") >= 50, "too few attempts at the limit after a resize-down had returned")
 		r.Require(r.Counter("conc_epoch_begins_by_toggle_or_readd") >= 50, "too few epochs begun by a type change / re-add")
 		r.Require(r.Counter("isolation_probe_rounds_while_hot_exhausted") >= 100, "too few isolation probes while the other schema was exhausted")
+		r.Require(r.Counter("default_name_isolation_cases") >= 6, "too few system-default name isolation cases")
 		r.Require(r.Counter("near_collision_cases") >= 30 && r.Counter("near_collision_exact_probes") >= 250, "too few near-collision isolation probes")
 		r.Require(r.Counter("lin_histories") >= 100 && r.Counter("lin_admissions") >= 500, "too few linearizability histories")
 		if os.Getenv("VERIF_C05_SKIP_E2E") == "" {
@@ -57,6 +59,7 @@ func TestCheck(t *testing.T) {
 			r.Require(r.Counter("e2e_quiescence_429_observed") >= 20, "too few end-to-end quiescence probes reached the 429")
 			r.Require(r.Counter("e2e_panics_injected_while_writing_503") >= 5 && r.Counter("e2e_panics_injected_in_upgrade_hijack") >= 5, "too few panics were injected in the dispatcher's frame after admission")
 			r.Require(r.Counter("e2e_streams_ended_by_endpoint_removal") >= 3, "too few streams were torn down by an endpoint removal")
+			r.Require(r.Counter("e2e_default_name_scenarios") >= 2, "too few end-to-end scenarios with a schema named system-default")
 			r.Require(r.Counter("e2e_near_collision_scenarios") >= 3, "too few end-to-end near-collision scenarios completed")
 		}
 	})
